@@ -330,3 +330,89 @@ class YieldInjector:
         for t, s in self.trace:
             h.update(("%d@%s;" % (t, s)).encode())
         return h.hexdigest()[:16]
+
+
+# ------------------------------------------------------------------ deterministic single preemption
+class Preempter:
+    """Deterministic scheduler for two threads: thread A runs operation a; at its k-th LINE event inside btc_hd_wallet
+    (the given files only) it is parked, thread B runs operation b to completion, then A resumes.  k = None: never park
+    (used to count A's statements).  This enumerates EVERY single-preemption interleaving of (a, b) at statement
+    granularity instead of sampling them."""
+    TOOL = 5
+
+    def __init__(self, k, files):
+        self.k = k
+        self.files = tuple(files)
+        self.count = 0
+        self.a_ident = None
+        self.go_b = threading.Event()
+        self.b_done = threading.Event()
+        self.parked_at = None
+        self.prefix = _repo_prefix()
+
+    def start(self):
+        import os
+        mon = sys.monitoring
+        mon.use_tool_id(self.TOOL, "vp-preempt")
+
+        def cb(code, line):
+            fn = code.co_filename
+            if not fn.startswith(self.prefix) or os.path.basename(fn)[:-3] not in self.files:
+                return mon.DISABLE
+            if threading.get_ident() != self.a_ident:
+                return None
+            self.count += 1
+            if self.k is not None and self.count == self.k:
+                self.parked_at = "%s:%d" % (code.co_name, line)
+                self.go_b.set()
+                self.b_done.wait(60)
+            return None
+        mon.register_callback(self.TOOL, mon.events.LINE, cb)
+        mon.set_events(self.TOOL, mon.events.LINE)
+        mon.restart_events()
+
+    def stop(self):
+        mon = sys.monitoring
+        mon.set_events(self.TOOL, 0)
+        mon.register_callback(self.TOOL, mon.events.LINE, None)
+        mon.free_tool_id(self.TOOL)
+
+
+def run_preempted(fa, fb, k, files, timeout=120):
+    """Thread A runs fa(); at its k-th statement inside the given repo files it is parked, thread B runs fb() to completion,
+    A resumes.  k=None: fa alone (counting run; fb is not started).  Returns dict(a=, b=, errors=[(who, exc)], site=, count=,
+    finished=bool)."""
+    pre = Preempter(k, files)
+    res, errs = {}, []
+
+    def run_a():
+        pre.a_ident = threading.get_ident()
+        try:
+            res["a"] = fa()
+        except BaseException as e:  # noqa
+            errs.append(("a", e))
+        finally:
+            pre.go_b.set()
+
+    def run_b():
+        pre.go_b.wait(timeout)
+        try:
+            res["b"] = fb()
+        except BaseException as e:  # noqa
+            errs.append(("b", e))
+        finally:
+            pre.b_done.set()
+    ta = threading.Thread(target=run_a)
+    tb = threading.Thread(target=run_b) if k is not None else None
+    pre.start()
+    try:
+        if tb is not None:
+            tb.start()
+        ta.start()
+        ta.join(timeout)
+        if tb is not None:
+            tb.join(timeout)
+    finally:
+        pre.stop()
+    finished = not ta.is_alive() and (tb is None or not tb.is_alive())
+    return {"a": res.get("a"), "b": res.get("b"), "errors": errs, "site": pre.parked_at, "count": pre.count, "finished": finished}
